@@ -11,6 +11,17 @@ import (
 var tablePool = []string{"users", "orders", "items", "t1", "select", "order", "group", "accounts"}
 var colPool = []string{"id", "name", "a", "b", "c", "d", "e", "x", "y", "desc", "index", "created_at", "user_id", "qty", "key"}
 
+// MySQL only: names with upper-case letters (sqlize keeps identifiers as written; the Postgres parser folds bare
+// identifiers and prints the others with quotes, the recorded finding `postgres-quoted-identifiers`)
+var colPoolMysql = append(append([]string{}, colPool...), "userName", "OrderNo")
+
+func (g *gen) colNames() []string {
+	if g.dialect == "mysql" {
+		return colPoolMysql
+	}
+	return colPool
+}
+
 type gen struct {
 	rng     *rand.Rand
 	dialect string
@@ -86,7 +97,7 @@ func (g *gen) freshName(pool []string, used func(string) bool, prefix string) st
 }
 
 func (g *gen) newColumn(t *gTable) ColDef {
-	name := g.freshName(colPool, func(n string) bool { return t.colIndex(n) >= 0 }, "col")
+	name := g.freshName(g.colNames(), func(n string) bool { return t.colIndex(n) >= 0 }, "col")
 	typ := g.typ()
 	return ColDef{Name: name, Typ: typ, Opts: g.opts(typ)}
 }
